@@ -67,7 +67,32 @@ def check(ctx, rep):
                 lt = (bb, t_t, f_t)
             if x[1] == "Gt" and x[3][:2] == ("int", hi):
                 gt = (bb, t_t, f_t)
-    if not lt or not gt:
+    inr = None
+    for bb, d, f_t, t_t in util.bool_switches(se):
+        x = strip(d)
+        neg = False
+        while x[0] == "unop" and x[1] == "Not":
+            neg = not neg
+            x = x[2]
+        if util.is_call(x) and x[1].endswith("::contains") and "RangeInclusive" in x[1] and len(x[2]) == 2:
+            r_, v_ = strip(x[2][0]), util.numnorm(x[2][1])
+            bounds = None
+            if util.is_call(r_) and r_[1].endswith("RangeInclusive::<Idx>::new"):
+                bounds = tuple(util.numnorm(a) for a in r_[2])
+            elif r_[0] == "agg" and r_[2] == "std::ops::RangeInclusive":
+                bounds = tuple(util.numnorm(a) for a in r_[4][:2])
+            if bounds and bounds[0][:2] == ("int", lo) and bounds[1][:2] == ("int", hi) and v_[0] == "len" and "pin::pin_to_bytes" in str(v_):
+                inr = (bb, f_t, t_t) if neg else (bb, t_t, f_t)
+    if inr is not None and not (lt and gt):
+        # (MIN..=MAX).contains(&len): one exact two-sided test
+        sw, in_t, out_t = inr
+        hash_blocks = [bi for bi, t in body.calls() if (t.get("callee") or "").endswith("Digest::new")] + [somes[0][0]]
+        bad = [bi for bi in hash_blocks if not cfg.must_pass_edge(body, (sw, in_t), bi)]
+        rep.check(not bad, "gate", HF, "hash-only-in-range", "hashing only behind (4..=10).contains(len)", "hashing reachable without passing the length test (bb%s)" % bad, body.loc())
+        r_out = cfg.reachable(body, start=out_t)
+        r_in = cfg.reachable(body, start=in_t)
+        rep.check(bool(nones) and all(bi in r_out and bi not in r_in for bi, _ in nones) and somes[0][0] not in cfg.reachable(body, cut_edges=[(sw, in_t)]), "gate", HF, "none-out-of-range", "out-of-range lengths lead to None", "out-of-range edges do not lead to None", body.loc())
+    elif not lt or not gt:
         rep.violation("gate", HF, "length-tests", "length tests `len < 4` / `len > 10` on the digit slice not found", body.loc())
     else:
         hash_blocks = [bi for bi, t in body.calls() if (t.get("callee") or "").endswith("Digest::new")] + [somes[0][0]]
@@ -76,7 +101,7 @@ def check(ctx, rep):
         none_ok = nones and all(not cfg.must_pass_edge(body, (lt[0], lt[2]), bi) or not cfg.must_pass_edge(body, (gt[0], gt[2]), bi) for bi, _ in nones)
         r1 = cfg.reachable(body, start=lt[1])
         r2 = cfg.reachable(body, start=gt[1])
-        rep.check(bool(nones) and all(bi in r1 and bi in r2 for bi, _ in nones) and somes[0][0] not in cfg.reachable(body, cut_edges=[(lt[0], lt[2])]) , "gate", HF, "none-out-of-range", "out-of-range lengths lead to None", "out-of-range edges do not lead to None", body.loc())
+        rep.check(bool(nones) and bool(none_ok) and all(bi in r1 and bi in r2 for bi, _ in nones) and somes[0][0] not in cfg.reachable(body, cut_edges=[(lt[0], lt[2])]) , "gate", HF, "none-out-of-range", "out-of-range lengths lead to None", "out-of-range edges do not lead to None", body.loc())
     # ---- wrapper
     vse = ctx.wrap.run(VF)
     if vse is None:
